@@ -9,6 +9,7 @@ mod text;
 mod ide_cmd;
 mod sweep;
 mod project;
+mod race;
 mod syntax_cmd;
 pub mod util;
 
@@ -21,6 +22,7 @@ fn dispatch(args: &[&str]) -> Option<String> {
         "lcall" | "posall" | "endcols" | "edit" | "editfull" | "semtok" => text::run(args),
         "lex" | "parse" | "parsestat" | "shape" | "lossless" | "defs" | "ancestors" => syntax_cmd::run(args),
         "sweep" => sweep::run(args),
+        "race" => race::run(args),
         "modname" | "projparent" | "lowervfs" | "assemble" => project::run(args),
         _ => ide_cmd::run(args),
     }
